@@ -81,6 +81,9 @@ type dbSession struct {
 	Clients [][]dbOp   `json:"clients"`
 	Knobs   schedKnobs `json:"knobs"`
 	NoClose bool       `json:"no_close,omitempty"`
+	// Close is called on the handle before Open (documented to return ErrNotOpenedYet): it must not change what the
+	// later Open / Close pair does
+	EarlyClose bool `json:"early_close,omitempty"`
 	RelPath bool       `json:"rel_path,omitempty"` // open the database by a relative base path
 	Symlink bool       `json:"symlink,omitempty"`  // open the database through a symbolic link to its directory
 }
@@ -91,6 +94,8 @@ type dbCase struct {
 	Recovery dbOpts      `json:"recovery"`
 	// delete directory entries inside RemoveAll in a tape-chosen order (crash harness)
 	PermuteUnlink bool `json:"permute_unlink,omitempty"`
+	// the database (and every crash image of it) lives in a directory whose name holds glob metacharacters etc.
+	OddName bool `json:"odd_name,omitempty"`
 }
 
 var keyPool = []string{"a", "ab", "abc", "b", "key-with-a-long-name-0123456789", "k\x00bin\xff", "zz", "m"}
@@ -310,6 +315,9 @@ func (r *dbRunner) runSession(si int, s dbSession) (res sessionResult) {
 			defer func() { fin <- struct{}{} }()
 			res.OpenSeq = w.Emit(simrt.Event{Kind: simrt.EvMark, Note: "open"})
 			w.Phase = "open"
+			if s.EarlyClose {
+				_ = db.Close()
+			}
 			err := db.Open()
 			w.Phase = ""
 			res.OpenRetSeq = w.Emit(simrt.Event{Kind: simrt.EvMark, Note: "opened"})
